@@ -15,7 +15,7 @@ ID = "C02"
 LEVEL = "exploration"
 RULE = (
     "a case = one history: start state (default template 45% / manufactured out-of-order deck 15% / one of the 67 corpus decks "
-    "40%) + 10 (quick) or up to 40 (thorough) operations drawn from profile 'pkg' with a save after every operation "
+    "40%) + 10 (quick) or 30 (thorough) operations drawn from profile 'pkg' with a save after every operation "
     "(save_every=1) plus explicit save/re-open-and-continue ops. Non-trivial when the history has >= 2 saves and >= 4 executed "
     "operations and was not abandoned. Distinct by the hash of (start, executed op list)."
 )
@@ -28,9 +28,9 @@ WATCHDOG_S = {"quick": 900, "thorough": 5400}
 
 
 def plan(tier, seed):
-    n = 208 if tier == "quick" else 8000
+    n = 208 if tier == "quick" else 4000
     per = 13 if tier == "quick" else 125
-    nops = 10 if tier == "quick" else 40
+    nops = 10 if tier == "quick" else 30
     return [{"lo": lo, "hi": min(n, lo + per), "nops": nops} for lo in range(0, n, per)]
 
 
